@@ -46,12 +46,20 @@ theorem ite_wr (c : Prop) [Decidable c] (a b : Out) : (if c then a else b).wr = 
 /-- unfold model and specification completely -/
 macro "mode_simp" : tactic => `(tactic|
   simp [step, specStep, abs, absOut, ret, aclosed, closed, modeOf, specErr, rule, modeErr, firstErr, effect,
-        Cfg.repaired, Cfg.pinned, vNoGlobal, vOrGlobal, growsInData, isRejection, isModeCall,
+        Cfg.repaired, Cfg.pinned, Cfg.pinnedMulti, vNoGlobal, vOrGlobal, growsInData, isRejection, isModeCall,
         PnVerif.ModeLemmas.ite_err, PnVerif.ModeLemmas.ite_st, PnVerif.ModeLemmas.ite_del,
         PnVerif.ModeLemmas.ite_val, PnVerif.ModeLemmas.ite_wr,
         Drv.enddef, Drv.endIndep, Drv.beginIndep, Drv.redef, Drv.cancelAll, Drv.close, Drv.abort,
-        Drv.syncNumrecs, Drv.sync, Drv.wait, Drv.cancel, Drv.attach, Drv.detach, Drv.hdrWrite, Drv.putAtt,
+        Drv.syncNumrecs, Drv.sync, Drv.wait, Drv.waitNull, Drv.cancel, Drv.attach, Drv.detach, Drv.hdrWrite, Drv.putAtt,
         Drv.renameAtt, Drv.copyAtt, Drv.delAtt, Drv.rename, Drv.fillVarRec, Drv.post, sanityCheck, fillDispErr])
+
+/-- case split on the call — and, for put/get, on the argument classes that sanity_check turns into
+    a code which the collective branch then *tests again* — closing every case with `t` -/
+macro "mode_all " t:tactic : tactic => `(tactic|
+  (cases ‹Call› with
+   | rw isPut coll v text cb varn => cases isPut <;> cases coll <;> cases v <;> cases text <;> $t:tactic
+   | post k v text cb => cases k <;> $t:tactic
+   | _ => $t:tactic))
 
 theorem inv_closed : ModeInv closed := by constructor <;> simp [closed]
 
